@@ -176,6 +176,19 @@ CORPUS = [
                    {"op": "del", "via": "f", "key": "domainancillary0"},
                    {"op": "del", "via": "d", "key": "dimensioncoordinate0"},
                    {"op": "del", "via": "core", "key": "nope0"}]),
+    # two coordinate references naming the same domain ancillary, then convert(full_domain):
+    # the ancillary is set twice under one key (a model slip found by the thorough tier)
+    ("convert-shared-ancillary", [_ax(3), _ax(2), _arr("dimension_coordinate", [3], ["domainaxis0"]),
+                                  _arr("domain_ancillary", [3, 2], ["domainaxis0", "domainaxis1"]),
+                                  {"op": "set", "via": "f", "c": {"t": "coordinate_reference",
+                                                                   "coords": ["dimensioncoordinate0"],
+                                                                   "ancs": {"t0": "domainancillary0"}},
+                                   "key": None, "axes": None},
+                                  {"op": "set", "via": "f", "c": {"t": "coordinate_reference",
+                                                                   "coords": ["dimensioncoordinate0"],
+                                                                   "ancs": {"t0": "domainancillary0"}},
+                                   "key": None, "axes": None},
+                                  {"op": "convert", "key": "domainancillary0", "full_domain": True}]),
 ]
 
 
@@ -280,7 +293,7 @@ def run(chk, model_ok):
     ncorr = 0
     if model_ok:
         lits = [g_case(steps) for c, steps in done]
-        bad = lib.coq_bad_indices("C02", REQ, "check_case", lits, chunk=30)
+        bad = lib.coq_bad_indices("C02", REQ, "check_case", lits, chunk=10 if thorough else 30, timeout=2400)
         ncorr = len(lits)
         shown = 0
         for i in bad:
@@ -300,6 +313,16 @@ def run(chk, model_ok):
                      f"model and implementation disagree on a history ({c['fam']}); first bad step: {where}",
                      {"correspondence": "C02.Run.check_case", "input": {"ops": [x["op"] for x in steps]},
                       "observed": [[x["out"], x["state"]] for x in steps][-3:], "first_bad": where})
+
+    # how many histories leave the model's scope somewhere (comparison stops there): measured on a sample
+    cut_sample = None
+    if model_ok and ncorr:
+        sample = lits[len(CORPUS):len(CORPUS) + 150]
+        cut = lib.coq_bad_indices(
+            "C02", REQ,
+            "(fun l => Nat.eqb (in_model_steps init (map (fun x => fst (fst x)) l)) (length l))",
+            sample, chunk=30)
+        cut_sample = {"histories_in_sample": len(sample), "cut_by_out_of_model_step": len(cut)}
 
     distinct = {lib.canon([s["op"] for s in steps]) for c, steps in done if is_nontrivial(steps)}
     fam = {}
@@ -325,6 +348,7 @@ def run(chk, model_ok):
         "operations": dict(sorted(opkinds.items())),
         "outcomes": dict(sorted(outcomes.items())),
         "exhaustive": False,
+        "model_scope": cut_sample,
         "historical_refutations": "C02/Refuted.v: witnesses against the code as it stood at the pinned commit "
                                   "(F02a and its domain-view forms, F02b, replacement keeping axes, axis resize, "
                                   "axes for a non-array construct, field axes without data, insert_dimension(-1), "
